@@ -23,7 +23,9 @@ EPS_M = {'forward': EPS ** 0.5, 'central': EPS ** (2.0 / 3), 'complex': EPS}
 FUNS = ['exp', 'sin', 'cosh', 'arctan', 'square', 'recip2']
 PAIRS = [(g, h) for g in FUNS for h in FUNS]
 POINTS = [[0.7, -1.3, 0.45, 2.1, -0.6, 1.15], [-0.25, 1.9, 0.0, -0.8, 1.4, -2.2],
-          [1e-4, -3e-6, 2.1, 1e-9, 0.5, -2.5e-11]]     # small non-zero coordinates: the default step must not collapse
+          [1e-4, -3e-6, 2.1, 1e-9, 0.5, -2.5e-11],     # small non-zero coordinates: the default step must not collapse
+          [1.0, -2.0, 3.0, 2.0, -1.0, 4.0]]             # handed to the wrapper as an INTEGER array (see INT_POINTS)
+INT_POINTS = {3}
 
 NP_FUN = dict(exp=np.exp, sin=np.sin, cosh=np.cosh, arctan=np.arctan,
               square=lambda t: t * t, recip2=lambda t: 1.0 / (2.0 + t * t))
@@ -268,6 +270,9 @@ def run_one(case):
         shp = case['xshape']
         xin = float(x[0]) if shp == 'float' else x.copy().reshape(tuple(shp))
         want_shape = (n,) if n > 1 else ()
+    if case['pt'] in INT_POINTS:
+        # the same point with integer dtype (a list of Python ints / np.arange is ordinary use)
+        xin = int(xin) if isinstance(xin, float) else xin.astype(np.int64)
     degenerate_real = bkind == 'degenerate' and method != 'complex'
     info = dict(ratio=None, nontrivial=False, raised=None, evals=0, off_nominal=0)
     # non-triviality from oracle-side quantities only: some entry of the closed-form Jacobian can
@@ -458,7 +463,7 @@ def work(chunk, full=False):
 
 def build_units(ctx):
     full = not ctx.quick
-    pts = [0, 1, 2] if full else [ctx.seed % 2, 2]
+    pts = [0, 1, 2, 3] if full else [ctx.seed % 2, 2, 3]
     units = []
     for n in range(1, 7):
         for m in range(1, 6):
